@@ -436,7 +436,8 @@ def r3_generators(ctx, repo):
     fl = func_params(fn)[1]
     apps = [c for c in calls_in(fn) if method_call(c) and method_call(c)[1] == "append" and c.args and isinstance(c.args[0], ast.Subscript)]
     ok = any(isinstance(c.args[0].value, ast.Subscript) and access_path(c.args[0].value.value) == fl for c in apps)
-    ctx.check(ok, "R3", C, where(doe, fn), "design values are selected from the level lists (factor_lists[index][code]), never computed", key="select-only")
+    ctx.check3(True if ok else None, "R3", C, where(doe, fn), "design values are selected from the level lists (factor_lists[index][code]), never computed",
+               unknown_detail="construct_df shape not recognised", key="select-only")
     # column i of a design must belong to parameter i: the builders collect the level lists in the dictionary's
     # (= declaration) order, never in a re-ordered view
     for bname in ("build_lhs", "build_halton", "build_full_fact", "build_plackett_burman", "build_box_behnken"):
@@ -471,7 +472,8 @@ def r3_generators(ctx, repo):
                 if not (t.endswith("['bounds'][0]") or t.endswith("['bounds'][1]") or
                         poly.equal(canon(e, defs), poly.parse("(parameter['bounds'][0] + parameter['bounds'][1]) / 2.0"))):
                     good = False
-        ctx.check(good, "R3", "%s.generate" % gname, where(g.module, fn), "level lists are built from the parameter's bounds (and their midpoint) only", key="levels-from-bounds")
+        ctx.check3(True if good else (False if levels else None), "R3", "%s.generate" % gname, where(g.module, fn), "level lists are built from the parameter's bounds (and their midpoint) only",
+                   "a level list contains a value that is not one of the parameter's bounds (or their midpoint): %s" % "; ".join(text(s_.value) for s_ in levels), "level lists not recognised", key="levels-from-bounds")
 
 
 # ------------------------------------------------------------------ R4 positions
